@@ -14,6 +14,7 @@ using TreeTsm = TbfTreeTsm<Real, DataT, NData, U, NRHS, MCell, LCell, Idx>;
 using PosVec = std::vector<std::array<Real, NData>>;
 
 enum AidT { Y_RHS = 400, Y_SEEN, Y_MULTIPOLE, Y_LOCAL, Y_NO_OTHER_OP, Y_SRC_UNTOUCHED, Y_SRC_HAS_NO_LOCAL, Y_TGT_HAS_NO_MULTIPOLE,
+            R_RHS_TWICE_T = 410,
             YG_P2M = 420, YG_M2M, YG_M2L_TGT, YG_M2L_SRC, YG_M2L_OFF, YG_L2L, YG_L2P, YG_P2P_SRC, YG_P2P_TGT, YG_P2P_OFF, YG_N, YG_DATA };
 
 // registries of the two trees
@@ -246,4 +247,25 @@ ENTRY(h_c09){
         }
     }
     irsym_assert(lk, Q_CELL);
+    // bulk export of both trees (C17) and rebuild of the pair (C13): exports keyed by original index; a second execute doubles the results
+    if(a4){
+        auto ds = tree.getAllParticlesDataSource(); auto dt = tree.getAllParticlesDataTarget(); auto rt = tree.getAllParticlesRhsTarget();
+        bool ex = true;
+        for(long p = 0; p < NS; ++p) for(int v = 0; v < DIM + NEXTRA; ++v){ const Real e = static_cast<Real>(static_cast<DataT>(gP.pos[p][v])); ex = ex && std::memcmp(&ds[p][v], &e, sizeof(Real)) == 0; }
+        for(long p = 0; p < NT; ++p){
+            for(int v = 0; v < DIM + NEXTRA; ++v){ const Real e = static_cast<Real>(static_cast<DataT>(gP.pos[NS + p][v])); ex = ex && std::memcmp(&dt[p][v], &e, sizeof(Real)) == 0; }
+            for(int r = 0; r < NRHS; ++r) ex = ex & (rt[p][r] == U(r + 1) * totalS);
+        }
+        irsym_assert(ex, X_DATA);
+        tree.rebuild();
+        AlgoT algo2(cfg, upper);
+        algo2.execute(tree);
+        bool twice = true; long seen2 = 0;
+        tree.applyToAllLeavesTarget([&](auto&& hdr, const long* pidx, auto&&, auto&& rhs){
+            for(long i = 0; i < hdr.nbParticles; ++i, ++seen2) for(int r = 0; r < NRHS; ++r) twice = twice & (rhs[r][i] == U(2) * U(r + 1) * totalS);
+        });
+        irsym_assert(twice && seen2 == NT, R_RHS_TWICE_T);
+        checkStructureN([&](long l) -> const auto& { return tree.getCellGroupsAtLevelSource(l); }, space, leafIdx, 0, NS, bsS, a1 != 0, S_LEVEL_SET);
+        checkStructureN([&](long l) -> const auto& { return tree.getCellGroupsAtLevelTarget(l); }, space, leafIdx, NS, NT, bsT, a1 != 0, S_LEVEL_SET);
+    }
 }
